@@ -84,7 +84,7 @@ CLASSES = {"dangling_symlink_component": dangling_symlink_component, "uri_resolu
 
 # ---- oracle on the results of one chunk ---------------------------------------------------------
 
-def judge(ctx, rec, job, findings):
+def judge(ctx, rec, job, findings, case=None):
     """Apply the property (as read in notes/C19.md) to the observations of one path string."""
     cls = rec["cls"]
     fails = []
@@ -111,7 +111,7 @@ def judge(ctx, rec, job, findings):
         if hit:
             ctx.known_hits[hit[0]["id"]] = ctx.known_hits.get(hit[0]["id"], 0) + 1
         else:
-            ctx.failures.append({"case": {"path": rec["p"], "tree": job["kind"], "tree_seed": job["seed"]}, "why": why, "why_class": why_class,
+            ctx.failures.append({"case": case or {"path": rec["p"], "tree": job["kind"], "tree_seed": job["seed"]}, "why": why, "why_class": why_class,
                                  "classification": cls, "validators": rec["val"], "observed": rec["eps"].get(why_class.split(":")[-1])})
 
 
@@ -267,6 +267,95 @@ def stage_paths(ctx, drv, findings):
             judge(ctx, rec, job, findings)
 
 
+# ---- sequences of calls in one process, the layout changes between the calls ---------------------------------------
+# The property quantifies over path strings AND file-system layouts; a server answers many calls in one process while the
+# tree changes under it.  Class explored: a component of the path (an interior directory, or the last component) is an object of
+# one kind in one call and of another kind — AT THE SAME ABSOLUTE PATH — in a later call: directory <-> symlink to a directory
+# (outside, absolute / relative text; inside), file / absent <-> symlink to a file (outside, inside, dangling), in both orders,
+# relative and absolute spellings.  Every call is judged against the layout of its moment, exactly as a single call in a fresh
+# process is (same oracle `judge`): whatever an earlier call has seen gives no licence.
+SEQ_DIRS = ["d", "d/d", "dx"]
+SEQ_DIR_KINDS = ["link-out-abs", "link-out-rel", "link-in"]
+SEQ_FILES = ["f.md", "d/f.md", "n.md", "d/d/n.md"]
+SEQ_FILE_KINDS = ["flink-out", "flink-in", "dangling"]
+
+
+def fixed_sequences():
+    seqs = []
+    for form in ("", "{SB}/"):
+        for D in SEQ_DIRS:
+            for K in SEQ_DIR_KINDS:
+                after = [D + "/secret.md", D + "/f.md", D + "/n.md"] + ([D + "/d/f.md"] if D == "d" else [])
+                # a real directory first, then a link at the same absolute path
+                seqs.append([["call", form + D + "/f.md"], ["flip", D, K]] + [["call", form + q] for q in after])
+                # a link first, then the real directory, then the link again
+                seqs.append([["flip", D, K], ["call", form + D + "/f.md"], ["flip", D, "orig"], ["call", form + D + "/f.md"], ["call", form + D + "/n.md"],
+                             ["flip", D, K], ["call", form + D + "/f.md"], ["call", form + D + "/secret.md"]])
+        for F in SEQ_FILES:
+            for K in SEQ_FILE_KINDS:
+                seqs.append([["call", form + F], ["flip", F, K], ["call", form + F], ["flip", F, "orig"], ["call", form + F], ["flip", F, K], ["call", form + F]])
+    return seqs
+
+
+def random_sequences(ctx, n):
+    rng = ctx.rng
+    out = []
+    for _ in range(n):
+        form = "{SB}/" if rng.random() < 0.4 else ""
+        locs = rng.sample(SEQ_DIRS + SEQ_FILES, rng.randint(1, 3))
+        state = {}
+        steps = []
+        for _k in range(rng.randint(3, 9)):
+            if rng.random() < 0.4:
+                loc = rng.choice(locs)
+                kinds = (SEQ_DIR_KINDS if loc in SEQ_DIRS else SEQ_FILE_KINDS + ["absent"]) + ["orig", "orig"]
+                kind = rng.choice([k for k in kinds if k != state.get(loc, "orig")])
+                state[loc] = kind
+                steps.append(["flip", loc, kind])
+            else:
+                loc = rng.choice(locs)
+                steps.append(["call", form + (loc if loc in SEQ_FILES else loc + "/" + rng.choice(["f.md", "secret.md", "n.md", "d/f.md", "g.oct.md"]))])
+        if not any(s[0] == "call" for s in steps):
+            steps.append(["call", form + "d/f.md"])
+        out.append(steps)
+    return out
+
+
+def judge_sequence(ctx, job, res, findings):
+    for c in res["calls"]:
+        case = {"sequence": res["seq"], "call_step": c["step"], "path": c["rec"]["p"], "tree": job["kind"], "tree_seed": job["seed"]}
+        ctx.case(case)
+        ctx.count("sequence_call:" + ("must_refuse" if c["rec"]["cls"]["must_refuse"] else "acceptable") + (":after-flip" if c["layout"] else ":first-layout"))
+        judge(ctx, c["rec"], job, findings, case=case)
+
+
+def stage_sequences(ctx, drv, findings):
+    seqs = corpus("sequences") + fixed_sequences() + random_sequences(ctx, ctx.budget(12, 600))
+    jobs = [{"kind": "base", "seed": 0, "seqs": ch, "tag": f"q{k}-"} for k, ch in enumerate(chunked(seqs, max(1, len(seqs) // (vlib.NCPU * 2) + 1)))]
+    outs = vlib.pmap(PW.run_sequence_chunk, jobs, chunksize=1)
+    batches = []
+    for out in outs:
+        b = []
+        for res in out["results"]:
+            for li, lay in enumerate(res["layouts"]):
+                b.append({"op": "fs", "nodes": lay["nodes"], "cwd": comps(lay["cwd"])})
+                b += [{"op": "vp", "p": c["rec"]["p"].replace("{SB}", lay["cwd"])} for c in res["calls"] if c["layout"] == li]
+        batches.append(b)
+    replies = model_batches(drv, batches) if drv is not None else [None] * len(batches)
+    for job, out, rep in zip(jobs, outs, replies):
+        k = 0
+        for res in out["results"]:
+            judge_sequence(ctx, job, res, findings)
+            ctx.count(f"sequences:flips={sum(1 for s in res['seq'] if s[0] == 'flip')}")
+            if rep is None:
+                continue
+            for li, _lay in enumerate(res["layouts"]):
+                k += 1
+                cs = [c for c in res["calls"] if c["layout"] == li]
+                compare_paths(ctx, {"kind": job["kind"], "seed": job["seed"]}, {"results": [c["rec"] for c in cs]}, rep[k:k + len(cs)])
+                k += len(cs)
+
+
 def stage_cli_subprocess(ctx, findings):
     """the real executable in a subprocess (exit code + snapshots): `octave write PATH` (thorough tier: broad) and the other ways the CLI
     is given a file to write, `octave normalize/seal FILE -o PATH` (every tier: one path of every refusal class)."""
@@ -385,6 +474,76 @@ def stage_frozen(ctx, drv):
                 ctx.count(f"frozen_refusal_kind_differs:{m['r']}/{r['res'][0]}")
 
 
+# ---- frozen references whose cache file is not the pinned bytes ------------------------------------------------------
+# "a frozen@sha256 reference resolves only to a cache file whose BYTES hash to that digest": the reference carries the correct
+# digest of the original bytes, the cache file (at the digest-prefix name) holds something else.  Class: every tampering of
+# PW.FROZEN_TAMPERS (same text / other bytes: line-ending re-encodings in both directions, final newline added or removed, BOM,
+# trailing blanks, tab for blank, NFD, letter case; other content: one flipped bit at three positions, truncations, appended NUL,
+# doubled) x every original of PW.frozen_originals() (LF and CRLF schema files, no final newline, non-ASCII, lone CR, a file
+# longer than one hashing chunk).  Oracle = the sentence above, on the bytes on disk (hashlib), through both routes.
+
+def frozen_tamper_cases(ctx):
+    names = list(PW.frozen_originals())
+    tampers = list(PW.FROZEN_TAMPERS)
+    return [[o, t] for o in names for t in tampers]
+
+
+def judge_frozen_tamper(ctx, r, cache_ok=True):
+    case = {"frozen_tamper": [r["original"], r["tamper"]], "standard_ref": r["ref"]}
+    ctx.case(case)
+    if r["same_bytes"]:
+        # the pinned bytes themselves (control, or a tampering that does not apply to this original): not judged by C19
+        ctx.count("frozen_tamper:untampered:" + ("resolves" if r["res"][0] == "ok" else "refused") + ("+tool-loads" if r["tool"]["loaded"] else ""))
+        return
+    ctx.count(f"frozen_tamper:{r['tamper']}:" + r["res"][0])
+    if r["res"][0] == "ok":
+        if os.path.dirname(r["res"][1]) != r["cache"]:
+            ctx.failures.append({"case": case, "why": f"frozen reference resolved to {r['res'][1]}, not a file of the cache directory", "why_class": "frozen-escape"})
+        elif r["sha"] != r["digest"]:
+            ctx.failures.append({"case": case, "why_class": "frozen-hash", "observed": {"res": r["res"], "tool": r["tool"]},
+                                 "why": f"reference {r['ref'][:30]}… (digest of the original bytes) resolved to a cache file whose bytes hash to {r['sha']} "
+                                        f"(original {r['original']}, tampering {r['tamper']})"})
+    if r["tool"]["loaded"]:
+        ctx.failures.append({"case": dict(case, route="octave_write(schema=ref)"), "why_class": "frozen-hash-tool", "observed": r["tool"],
+                             "why": f"octave_write(schema='{r['ref'][:30]}…') loaded a cache file whose bytes hash to {r['file_sha']}, not to the digest "
+                                    f"(original {r['original']}, tampering {r['tamper']})"})
+    bad = [e for e in r["open"] if not P.inside(e[2], r["cache"])]
+    if bad:
+        ctx.failures.append({"case": case, "why": f"resolve_hermetic_standard opened {bad[:3]} outside the cache directory", "why_class": "frozen-open-outside"})
+
+
+def stage_frozen_tamper(ctx, drv):
+    cases = frozen_tamper_cases(ctx)
+    jobs = [{"cases": ch} for ch in chunked(cases, max(1, len(cases) // 6 + 1))]
+    outs = vlib.pmap(PW.run_frozen_tamper_chunk, jobs, chunksize=1)
+    batches = [[{"op": "fs", "nodes": out["nodes"], "cwd": comps(out["root"] + "/sb"), "H": out["H"]}] +
+               [{"op": "frozen", "cache": comps(r["cache"]), "ref": r["ref"]} for r in out["results"]] for out in outs]
+    replies = model_batches(drv, batches) if drv is not None else [None] * len(batches)
+    controls = [0, 0, 0]
+    for out, rep in zip(outs, replies):
+        for i, r in enumerate(out["results"]):
+            judge_frozen_tamper(ctx, r)
+            if r["tamper"] == "none":
+                controls[0] += 1
+                controls[1] += r["res"][0] == "ok"
+                controls[2] += bool(r["tool"]["loaded"])
+            if rep is None:
+                continue
+            m = rep[1 + i]
+            if "unsupported" in m:
+                ctx.count("model_unsupported")
+                continue
+            mv = ["ok", "/" + "/".join(m["q"])] if m["r"] == "ok" else ["refused"]
+            iv = r["res"] if r["res"][0] == "ok" else ["refused"]
+            if mv != iv:
+                ctx.corr_disagreements.append({"case": {"frozen_tamper": [r["original"], r["tamper"]], "standard_ref": r["ref"]}, "model": [m["r"]] + mv[1:],
+                                               "impl": r["res"], "view": "resolves? / resolved path of resolve_hermetic_standard (tampered cache file)"})
+    ctx.extra["frozen_tamper_controls"] = {"originals": controls[0], "resolve_through_api": controls[1], "loaded_through_octave_write": controls[2]}
+    if controls[1] < controls[0] or controls[2] == 0:
+        ctx.notes.append(f"frozen tamper stage: of {controls[0]} untampered originals {controls[1]} resolve through the API and {controls[2]} are loaded "
+                         f"through octave_write (the tool route observes a loaded schema only for schema files)")
+
+
 def stage_uri(ctx, drv, findings):
     uris = uri_list(ctx)
     jobs = [{"kind": "base", "seed": 0, "base": b, "uris": ch} for b in ("", "d", "d/d") for ch in chunked(uris, 1500)]
@@ -474,6 +633,8 @@ def run(ctx: vlib.Ctx):
     stage_frozen(ctx, drv)
     stage_uri(ctx, drv, findings)
     stage_cli_subprocess(ctx, findings)
+    stage_sequences(ctx, drv, findings)
+    stage_frozen_tamper(ctx, drv)
     finish_meta(ctx)
 
 
@@ -499,7 +660,19 @@ def run_replay(ctx, proj, findings):
     data = json.loads(open(ctx.replay).read())
     case = data.get("case", {})
     drv = proj.driver()
-    if "path" in case:
+    if "sequence" in case:
+        job = {"kind": case.get("tree", "base"), "seed": case.get("tree_seed", 0), "seqs": [case["sequence"]], "tag": "rp"}
+        out = PW.run_sequence_chunk(job)
+        for res in out["results"]:
+            judge_sequence(ctx, job, res, findings)
+            print(json.dumps([{"step": c["step"], "p": c["rec"]["p"], "cls": c["rec"]["cls"], "val": c["rec"]["val"],
+                               "eps": {n: {k: v for k, v in ob.items() if v} for n, ob in c["rec"]["eps"].items()}} for c in res["calls"]], indent=1, default=str)[:6000])
+    elif "frozen_tamper" in case:
+        out = PW.run_frozen_tamper_chunk({"cases": [case["frozen_tamper"]]})
+        for r in out["results"]:
+            judge_frozen_tamper(ctx, r)
+        print(json.dumps([{k: v for k, v in r.items() if k != "open"} for r in out["results"]], indent=1)[:3000])
+    elif "path" in case:
         job = {"kind": case.get("tree", "base"), "seed": case.get("tree_seed", 0), "paths": [case["path"]], "tools": True, "tag": "rp"}
         out = PW.run_paths_chunk(job)
         rep = drv.batch([{"op": "fs", "nodes": out["nodes"], "cwd": comps(out["cwd"])}] + [{"op": "vp", "p": case["path"].replace("{SB}", out["cwd"])}])
